@@ -1355,6 +1355,74 @@ def error_programs(rng, n):
         out.append({"src": src, "alphabet": alpha})
     return out
 
+
+def conflict_programs(rng, n):
+    """Family: DIFFERENT actions become ready in the same interaction loop after one event, so
+    all but one head lose the action conflict; the losers sit inside when-cases, or/and groups
+    (pattern-failure handlers), nested, several at once, with and without an else branch."""
+    def act(i):
+        return ['UtteranceBotAction(script="c%d")' % i, 'GestureBotAction(gesture="c%d")' % i][i % 2]
+
+    out, seen, tries = [], set(), 0
+    while len(out) < n and tries < n * 30:
+        tries += 1
+        kind = rng.choice(["one-flow-when", "one-flow-when", "two-flows", "two-flows", "group", "nested", "three"])
+        ctr = [0]
+
+        def nxt():
+            ctr[0] += 1
+            return act(ctr[0])
+
+        def when_block(ind, ncase, with_else, nested=False):
+            pad = "  " * ind
+            ls = []
+            for c in range(ncase):
+                ls.append(pad + ("when " if c == 0 else "or when ") + nxt())
+                if nested and c == 0:
+                    ls += when_block(ind + 1, 2, rng.random() < 0.5)
+                else:
+                    ls.append(pad + "  " + rng.choice(["start " + nxt(), "send O1()", "match E2()"]))
+            if with_else:
+                ls.append(pad + "else")
+                ls.append(pad + "  " + rng.choice(["start " + nxt(), "send O2()", "match E2()"]))
+            return ls
+
+        text = []
+        if kind == "one-flow-when":
+            text = ["flow main", "  match E1()"] + when_block(1, rng.choice([2, 2, 3]), rng.random() < 0.6) + \
+                   ["  match E2()", "  start " + nxt(), "  match E3()"]
+        elif kind == "two-flows":
+            text = ["flow a", "  match E1()", "  start " + nxt(), "  match E2()", "", "flow b", "  match E1()"] + \
+                   when_block(1, rng.choice([1, 2]), rng.random() < 0.7) + ["  match E3()", "", "flow main",
+                   "  " + rng.choice(["activate a", "start a"]), "  " + rng.choice(["activate b", "start b"]), "  match Never()"]
+        elif kind == "group":
+            op = rng.choice([" or ", " or ", " and "])
+            k = rng.choice([2, 3])
+            text = ["flow a", "  match E1()", "  await " + op.join(nxt() for _ in range(k)), "  send O1()", "  match E2()", "",
+                    "flow main", "  start a as $r", "  match $r.Finished() or $r.Failed()", "  send O3()", "  match Never()"]
+            if rng.random() < 0.5:
+                text = ["flow c", "  match E1()", "  start " + nxt(), "  match E3()", ""] + text[:-4] + \
+                       ["  start c", "  start a as $r", "  match $r.Finished() or $r.Failed()", "  send O3()", "  match Never()"]
+        elif kind == "nested":
+            text = ["flow main", "  match E1()"] + when_block(1, 2, rng.random() < 0.5, nested=True) + ["  match E2()", "  match Never()"]
+        else:
+            text = []
+            for nm in ("a", "b", "c"):
+                text += [f"flow {nm}", "  match E1()"]
+                if rng.random() < 0.6:
+                    text += when_block(1, rng.choice([1, 2]), rng.random() < 0.6)
+                else:
+                    text += ["  start " + nxt()]
+                text += ["  match E2()", ""]
+            text += ["flow main", "  start a", "  start b", "  start c", "  match Never()"]
+        src = "\n".join(text) + "\n"
+        if src in seen:
+            continue
+        seen.add(src)
+        alpha = [["ev", "E1", {}], ["fin", 0], ["ev", "E2", {}], ["fin", 1], ["ev", "E3", {}]]
+        out.append({"src": src, "alphabet": alpha})
+    return out
+
 def library_programs():
     """Shipped Colang 2 library flows (each file that parses offline) with small drivers."""
     lib = os.path.join(C.REPO, "nemoguardrails", "colang", "v2_x", "library")
@@ -1796,7 +1864,7 @@ def worker_main(jobfile, outfile):
 
 def make_programs(tier, seed):
     rng = random.Random(seed * 1000003 + 9)
-    n_gen = 170 if tier == "quick" else 700
+    n_gen = 150 if tier == "quick" else 650
     progs = []
     modes = [None, None, None, "aging", "roundtrip"]
     seen = set()
@@ -1823,6 +1891,10 @@ def make_programs(tier, seed):
     err_modes = [None, None, "aging", "roundtrip"]
     for i, fp in enumerate(error_programs(random.Random(rng.getrandbits(64)), n_err)):
         progs.append({"id": f"e{i}", "src": fp["src"], "alphabet": fp["alphabet"], "mode": err_modes[i % len(err_modes)]})
+    n_cf = 32 if tier == "quick" else 140
+    cf_modes = [None, None, "roundtrip", "aging"]
+    for i, fp in enumerate(conflict_programs(random.Random(rng.getrandbits(64)), n_cf)):
+        progs.append({"id": f"c{i}", "src": fp["src"], "alphabet": fp["alphabet"], "mode": cf_modes[i % len(cf_modes)]})
     libs = []
     for lp in library_programs():
         if lp.get("src") is None:
